@@ -598,6 +598,10 @@ impl Gen {
         }
         if self.cfg.codepages && r < ddl / 2 + 21 {
             let ids = cpora::all_ids();
+            // one in three: the page the database already has (must be a no-op for everything that is pending)
+            if self.rng.chance(1, 3) {
+                return Op::SetDbCodepage(model.db_codepage);
+            }
             for _ in 0..6 {
                 let id = *self.rng.pick(&ids);
                 if Gen::all_strings_representable(model, id) {
